@@ -4,7 +4,7 @@ PROP=$1; DIR=$(cd /verif && realpath $2); TIER=${3:-quick}
 cd /repo || exit 3
 if ! git diff --quiet; then echo "/repo has uncommitted changes"; exit 3; fi
 if ! git apply --check "$DIR/patch.diff" 2>/dev/null; then
-  if ! git apply --3way "$DIR/patch.diff" 2>/dev/null; then echo "PATCH DOES NOT APPLY: $DIR"; git checkout -- . ; exit 4; fi
+  if ! git apply --3way "$DIR/patch.diff" 2>/dev/null; then echo "PATCH DOES NOT APPLY: $DIR"; git checkout HEAD -- . 2>/dev/null; git reset -q; git checkout -- . ; exit 4; fi
   git reset -q
 else
   git apply "$DIR/patch.diff"
